@@ -1,11 +1,18 @@
 #!/bin/bash
-# tools/round3.sh <C> : confirm both mutations of /tmp/w3_<C> (tag s), store, drop the worktree, detect
+# tools/round3.sh <C> : confirm both mutations of /tmp/${ROUND_DIR:-w3}_<C> (tag ${ROUND_TAG:-s}), store them,
+# and ONLY IF both are stored drop the worktree; then detect
 c=$1
+dir=/tmp/${ROUND_DIR:-w3}_$c
+tag=${ROUND_TAG:-s}
 cd /verif
 for n in 1 2; do
-  python3 tools/seed.py confirm $c $n /tmp/w3_$c s 2>&1 | tail -1 | cut -c1-60
-  [ -f /tmp/w3_$c/REPORT.md ] && cp /tmp/w3_$c/REPORT.md seeded/$c-s$n/REPORT.md
+  python3 tools/seed.py confirm $c $n $dir $tag 2>&1 | tail -1 | cut -c1-60
+  [ -f $dir/REPORT.md ] && [ -d seeded/$c-$tag$n ] && cp $dir/REPORT.md seeded/$c-$tag$n/REPORT.md
 done
-git -C /repo worktree remove --force /tmp/w3_$c
-for n in 1 2; do python3 tools/seed.py detect $c-s$n 2>&1 | tail -1 | cut -c1-170; done
+if [ -f seeded/$c-${tag}1/patch.diff ] && [ -f seeded/$c-${tag}2/patch.diff ]; then
+  git -C /repo worktree remove --force $dir
+else
+  echo "NOT STORED - worktree $dir kept"; exit 1
+fi
+for n in 1 2; do python3 tools/seed.py detect $c-$tag$n 2>&1 | tail -1 | cut -c1-170; done
 git -C /repo status --short | head -3
